@@ -40,31 +40,47 @@ func (core *JApiCore) addMacro(d *directive.Directive) *jerr.JApiError {
 	}
 
 	core.macro[name] = d
+	core.macroNames = append(core.macroNames, name)
 
 	return nil
 }
 
 func (core *JApiCore) checkMacroForRecursion() *jerr.JApiError {
-	for macroName, macro := range core.macro {
-		if je := findPaste(macroName, macro); je != nil {
+	// The macros are checked in the order of their definition, so the same project
+	// always gives the same error.
+	for _, macroName := range core.macroNames {
+		visited := map[string]struct{}{macroName: {}}
+		if je := core.findPaste(macroName, core.macro[macroName], visited); je != nil {
 			return je
 		}
 	}
 	return nil
 }
 
-func findPaste(macroName string, d *directive.Directive) *jerr.JApiError {
+// findPaste looks for the PASTE directive which leads back to the macro with the
+// specified name, either directly or through a chain of other macros.
+func (core *JApiCore) findPaste(macroName string, d *directive.Directive, visited map[string]struct{}) *jerr.JApiError {
 	if d.Type() == directive.Paste {
-		switch d.NamedParameter("Name") {
+		name := d.NamedParameter("Name")
+		switch name {
 		case "":
 			return d.KeywordError(fmt.Sprintf("%s (%s)", jerr.RequiredParameterNotSpecified, "Name"))
 
 		case macroName:
 			return d.KeywordError(jerr.RecursionIsProhibited)
 		}
+
+		if _, ok := visited[name]; ok {
+			return nil
+		}
+		visited[name] = struct{}{}
+
+		if pasted, ok := core.macro[name]; ok {
+			return core.findPaste(macroName, pasted, visited)
+		}
 	} else if d.Children != nil {
 		for _, c := range d.Children {
-			if je := findPaste(macroName, c); je != nil {
+			if je := core.findPaste(macroName, c, visited); je != nil {
 				return je
 			}
 		}
